@@ -1,6 +1,7 @@
 import Genq.Props.C10
 open Genq.Conv
 open Genq
+open Genq.DirApply
 #print axioms C10_precedence
 #print axioms C10_no_leak
 #print axioms C10_bind_replaces_whole_type
@@ -10,3 +11,6 @@ open Genq
 #print axioms C10_struct_references_default
 #print axioms C10_convertType_tie
 #print axioms C10_directive_merge_tie
+#print axioms C10_omitempty_only_on_variables
+#print axioms C10_bind_never_on_operations
+#print axioms C10_pointer_always_applicable
